@@ -41,7 +41,7 @@ def tiny_png(path, w=3, h=2):
 # generic coloured document
 # --------------------------------------------------------------------------------------
 
-def build_color_doc(spec, shared=None):
+def build_color_doc(spec, shared=None, shared_page=None):
     """spec: dict(path, sections=[dict(n, m, text, bg, brd)], comp={name: [text, bg, font]}, nrow)
     comp names: title subline header footnote source pghdr pgftr.  Returns RTFDocument."""
     import polars as pl
@@ -90,6 +90,8 @@ def build_color_doc(spec, shared=None):
         cols = ["~D%d.%d~" % (si + 1, j + 1) for j in range(m)]
         df = pl.DataFrame({c: ["c%d.%d.%d" % (si + 1, r + 1, j + 1) for r in range(n)] for j, c in enumerate(cols)},
                           schema={c: pl.Utf8 for c in cols})
+        if s.get("bad_group"):
+            df = df.with_columns(pl.Series(cols[0], ["a", "b", "a"][:n]))
         bkw = {}
         if s.get("text"):
             bkw["text_color"] = s["text"]
@@ -116,7 +118,7 @@ def build_color_doc(spec, shared=None):
                 headers.append([rtf.RTFColumnHeader(text=["~H%d.%d~" % (si + 1, j + 1) for j in range(m)], **comp_kw("header"))])
         else:
             headers.append([None])
-    page = rtf.RTFPage(nrow=spec.get("nrow", 40), **({"page_footnote": spec["page_footnote"]} if spec.get("page_footnote") else {}),
+    page = shared_page if shared_page is not None else rtf.RTFPage(nrow=spec.get("nrow", 40), **({"page_footnote": spec["page_footnote"]} if spec.get("page_footnote") else {}),
                        **({"margin": list(spec["margin"])} if spec.get("margin") else {}),
                        **({"use_color": spec["use_color"] == "true"} if spec.get("use_color", "default") != "default" else {}))
     if path == "single":
@@ -255,8 +257,18 @@ POOL = {
     # the same paper and orientation with different margins, several pages
     "pagedm1": dict(path="single", sections=[dict(n=5, m=2)], comp={}, nrow=3, margin=[1.25, 1.0, 1.75, 1.25, 1.75, 1.00625]),
     "pagedm2": dict(path="single", sections=[dict(n=5, m=2)], comp={}, nrow=3, margin=[0.8, 1.4, 1.1, 0.9, 0.7, 0.6]),
+    # two documents on one caller-owned RTFPage: a plain table, and a multi-section document whose SECOND section
+    # cannot be encoded (non-contiguous group_by), so that its encode fails half-way
+    "pgshare": dict(path="single", sections=[dict(n=3, m=2)], comp={"title": ["", "", 0]}),
+    "pgfail": dict(path="multi", sections=[dict(n=2, m=2), dict(n=3, m=2, group_by=["~D2.1~"], bad_group=True)], comp={}),
 }
 SHARED_FAMILY = {"share1": "b", "share2": "b", "share3": "b", "sharew2": "w", "sharew3": "w"}
+SHARED_PAGE = {"pgshare", "pgfail"}        # documents built on one caller-owned RTFPage object
+
+
+def new_shared_page():
+    import rtflite as rtf
+    return rtf.RTFPage(nrow=40)
 
 
 def new_shared_body(fam):
@@ -264,7 +276,7 @@ def new_shared_body(fam):
     return rtf.RTFBody() if fam == "b" else rtf.RTFBody(col_rel_width=[1])
 
 
-def build_pool_doc(name, shared_body=None, tmpdir=None):
+def build_pool_doc(name, shared_body=None, tmpdir=None, shared_page=None):
     import polars as pl
     spec = dict(POOL[name])
     if tmpdir:
@@ -273,4 +285,5 @@ def build_pool_doc(name, shared_body=None, tmpdir=None):
         import rtflite as rtf
         df = pl.DataFrame({"~D1.1~": ["a", "b", "a"], "~D1.2~": ["c1.1.2", "c1.2.2", "c1.3.2"]})
         return rtf.RTFDocument(df=df, rtf_body=rtf.RTFBody(group_by=["~D1.1~"], text_color="grey39"), rtf_title=None)
-    return build_color_doc(spec, shared=shared_body if name in SHARED_FAMILY else None)
+    return build_color_doc(spec, shared=shared_body if name in SHARED_FAMILY else None,
+                           shared_page=shared_page if name in SHARED_PAGE else None)
